@@ -157,3 +157,52 @@ def replay(binp, work, emitted, workers=(1, 3), tag="bp", limit=None):
                 diff = [k for k in exp if exp[k] != got.get(k)]
                 bad.append((e, W, "layout differs from the specification in %s" % diff, exp, got))
     return n, bad
+
+
+def build_harness_sched(out):
+    """block processor + threadpool.c under the controlled scheduler (every unlock is a preemption point)"""
+    d = build.build("plain")
+    cc, cflags, ld = build.harness_cc("plain")
+    H = VERIF + "/harness"
+    subprocess.check_call(["gcc", "-O1", "-g", "-w", "-c", H + "/sched.c", "-o", out + "/sched_bp.o"])
+    binp = out + "/replay_blockproc_sched"
+    cmd = [cc] + cflags + ["-DSCHED", "-include", H + "/sched.h", '-DREPO_THREADPOOL_C="%s/lib/util/src/threadpool.c"' % build.REPO,
+                           H + "/replay_blockproc.c", out + "/sched_bp.o", d + "/liball.a"] + build.SYSLIBS + ["-o", binp]
+    r = subprocess.run(cmd, capture_output=True, text=True)
+    if r.returncode:
+        raise RuntimeError("cannot build scheduled block processor harness: %s" % r.stderr[-1500:])
+    return binp
+
+
+def replay_sched(binp, work, emitted, seeds, workers=2, tag="bs"):
+    """run each emitted input under `seeds` different controlled schedules; returns (runs, mismatches)"""
+    jobs = [(k, e, sd) for k, e in enumerate(emitted) for sd in seeds]
+
+    def do(job):
+        k, e, sd = job
+        p = "%s/%s_%d_%d.txt" % (work, tag, k, sd)
+        input_file(p, e["input"], e["mb"], workers)
+        rc, o, err = sh([binp, p, str(sd)], timeout=120)
+        try:
+            real = json.loads(o.decode().strip().split("\n")[-1])
+        except Exception:
+            real = {"crash": rc, "stderr": err.decode(errors="replace")[-300:]}
+        try:
+            os.unlink(p)
+        except OSError:
+            pass
+        return e, sd, real
+
+    bad = []
+    n = 0
+    with ThreadPoolExecutor(max_workers=16) as ex:
+        for e, sd, real in ex.map(do, jobs):
+            n += 1
+            if any(k in real for k in ("crash", "deadlock", "hang", "livelock", "fatal")) or real.get("err", 0) != 0:
+                bad.append((e, sd, "scheduled run ends in %s" % [k for k in real if k in ("crash", "deadlock", "hang", "livelock", "fatal", "err")], None, real))
+                continue
+            exp = expected_real(e["res"])
+            got = normalize_real(real)
+            if exp != got:
+                bad.append((e, sd, "layout differs from the specification in %s" % [k for k in exp if exp[k] != got.get(k)], exp, got))
+    return n, bad
